@@ -21,6 +21,11 @@ Kernels
       identity, strip (3 variants), char-case, replace (real `re`, literal replacement),
       filter, grep
   K6  composition: T | T (= left to right), -transformed-by T M, nested
+  K8  every resolving of a parsed object is independent of earlier ones, and a resolved object
+      keeps no state between applications: ONE parsed matcher / transformer (as the instructions
+      of a suite file are parsed once and run by every case) is resolved twice with different
+      symbol values (regex, replacement, expected text, integers, line matcher), and each
+      resolved object is applied to two texts, interleaved
   K7  the assertion part shared by the instructions `contents`, `stdout`, `stderr`
       (StringMatcherAssertionPart): PASS exactly when the documented predicate holds, FAIL otherwise
 """
@@ -119,6 +124,13 @@ REAL_K7 = (
     'exactly_lib.impls.instructions.assert_.utils.assertion_part.AssertionPart.check_and_return_pfh',
     'exactly_lib.impls.instructions.assert_.utils.file_contents.parse_file_contents_assertion_part.parse',
     'exactly_lib.impls.instructions.utils.logic_type_resolving_helper.resolving_helper_for_instruction_env',
+)
+
+REAL_K8 = (
+    'exactly_lib.impls.types.regex.parse_regex._RegexSdv',
+    'exactly_lib.impls.types.regex.parse_regex._RegexDdv',
+    'exactly_lib.type_val_deps.types.string_.string_sdv.StringSdv',
+    'exactly_lib.impls.types.matcher.impls.sdv_components.MatcherSdvFromParts',
 )
 
 STUB_INT = 'python_evaluate -> placeholder table (integer literal K_i denotes the symbolic integer k_i)'
@@ -238,6 +250,59 @@ def k7_assertion(s: str, e: str, k0: int, k1: int, u0: bool, u1: bool, u2: bool,
     holds = L.ref_matcher(c.get('ref_tree', tree), s, env)
     expected = PassOrFailOrHardErrorEnum.PASS if holds else PassOrFailOrHardErrorEnum.FAIL
     return ob.post(result.status is expected)
+
+
+# --------------------------------------------------------------------------- K8
+
+def _pre_k8(s1, s2, e1, e2, ka, kb, ua, ub) -> bool:
+    c = ob.case()
+    tree = c['tree']
+    for s in (s1, s2):
+        if len(s) > c['maxlen'] or not L.in_alphabet(s, c['alphabet']):
+            return False
+    if L.uses(tree, 'E'):
+        for e in (e1, e2):
+            if len(e) > c['maxlen_e'] or len(e) < c['minlen_e'] or not L.in_alphabet(e, c['alphabet_e']):
+                return False
+    elif e1 != '' or e2 != '':
+        return False
+    if not (L.uses(tree, 'numlines') or L.uses(tree, 'linenum')) and (ka != 0 or kb != 0):
+        return False
+    if not L.uses(tree, 'U') and (ua or ub):
+        return False
+    return True
+
+
+def _k8_agrees(is_m, primitive, tree, s, env) -> bool:
+    if is_m:
+        return primitive.matches_w_trace(L.text_model(s)).value == L.ref_matcher(tree, s, env)
+    out = primitive.transform(L.text_model(s))
+    with out.contents().as_lines as lines:
+        real_lines = list(lines)
+    expected = L.ref_transformer(tree, s, env)
+    return L.same_str(out.contents().as_str, expected) and L.same_lines(real_lines, L.ref_lines(expected))
+
+
+def k8_independent_resolvings(s1: str, s2: str, e1: str, e2: str, ka: int, kb: int, ua: bool, ub: bool) -> bool:
+    """
+    pre: _pre_k8(s1, s2, e1, e2, ka, kb, ua, ub)
+    post: _
+    """
+    # ONE parsed object (as an instruction of a suite file is parsed once), resolved for two "test cases"
+    # with different symbol tables, each resolved primitive applied to two texts, interleaved
+    c = ob.case()
+    tree = c['tree']
+    is_m = c['is_matcher']
+    env1 = L.Env(e1, ka, ka, (ua,) * 5)
+    env2 = L.Env(e2, kb, kb, (ub,) * 5)
+    sdv = L.parse_fresh(tree, is_m)
+    p1 = L.resolve(sdv, env1)
+    ok = _k8_agrees(is_m, p1, tree, s1, env1)
+    p2 = L.resolve(sdv, env2)
+    ok2 = _k8_agrees(is_m, p2, tree, s2, env1 if c.get('oracle_bug') else env2)
+    ok3 = _k8_agrees(is_m, p2, tree, s1, env2)  # the same primitive on a second text
+    ok4 = _k8_agrees(is_m, p1, tree, s2, env1)  # the first resolving still denotes the first case's values
+    return ob.post(ok and ok2 and ok3 and ok4)
 
 
 # --------------------------------------------------------------------------- K3
@@ -384,7 +449,7 @@ _ALL_RX = ['a', 'dot', '^a', 'a|b', '[ab]+', '.*', 'a.', '\\.', 'ab']
 
 _RX_NAME = {'a': 'a', 'dot': 'dot', '^a': 'caret-a', 'a|b': 'a-or-b', '[ab]+': 'ab-plus', '.*': 'dot-star',
             'a.': 'a-dot', '\\.': 'esc-dot', 'ab': 'ab', 'b': 'b', 'RX': 'RX',
-            'a|ab': 'a-or-ab', 'a|a.': 'a-or-a-dot', 'a*?': 'a-star-lazy'}
+            'a|ab': 'a-or-ab', 'a|a.': 'a-or-a-dot', 'a*?': 'a-star-lazy', 'E': 'E'}
 _OP_NAME = {'==': 'eq', '!=': 'ne', '<': 'lt', '<=': 'le', '>': 'gt', '>=': 'ge'}
 
 
@@ -609,6 +674,52 @@ def obligations(tier: str) -> List[Ob]:
             # text: 98 texts of |s| <= 1 in quick, 9507 of |s| <= 2 in thorough
             n_ascii -= 2
         f(kernel, tree, n_ascii, alphabet=ascii_, name=_name(tree) + '.ascii')
+
+    # ---- K8
+    n8 = 2 if quick else 3
+
+    def a8(tree, is_m, maxlen=None, minlen_e=0, maxlen_e=1, alphabet_e='ab', name=None, expect=ob.CONFIRM,
+           oracle_bug=False, timeout=300):
+        case = dict(tree=tree, is_matcher=is_m, maxlen=maxlen or n8, alphabet='ab\n', minlen_e=minlen_e,
+                    maxlen_e=maxlen_e, alphabet_e=alphabet_e)
+        if oracle_bug:
+            case['oracle_bug'] = True
+        syntax = (L.render_matcher(tree) if is_m else L.render_transformer(tree))
+        bound = ('`%s` parsed ONCE, resolved twice (values E1, K_a, verdict u_a of U, then E2, K_b, u_b) and every '
+                 'resolved object applied to both texts: every s1, s2 with |s| <= %d over {a, b, new-line}' % (
+                     syntax, case['maxlen']))
+        if L.uses(tree, 'E'):
+            bound += '; every E1, E2 with %d <= |E| <= %d over %s' % (minlen_e, maxlen_e, _alpha_descr(alphabet_e))
+        if L.uses(tree, 'numlines') or L.uses(tree, 'linenum'):
+            bound += '; every K_a, K_b in Z'
+        if L.uses(tree, 'U'):
+            bound += '; every u_a, u_b'
+        if oracle_bug:
+            bound = 'seeded oracle error (the second resolving is expected to denote the FIRST values); ' + bound
+        stubs = [STUB_TMP]
+        if L.uses(tree, 'numlines') or L.uses(tree, 'linenum'):
+            stubs.append(STUB_INT)
+        if L.uses(tree, 'U'):
+            stubs.append(STUB_U)
+        obs.append(Ob(
+            name='K8:%s' % (name or _name(tree)), fn='k8_independent_resolvings', case=case, kernel='K8',
+            bound=bound.replace('\n', '\\n'), timeout=timeout * tscale, expect=expect,
+            real=tuple(REAL_PARSE_M if is_m else REAL_PARSE_T) + tuple(_reals(tree)) + REAL_K8,
+            stubs=tuple(stubs), outside=(OUT_SRC, OUT_UNI, OUT_RE),
+            entry='one parsed sdv: resolve(symbols 1) ... resolve(symbols 2) -> primitives applied to two texts'))
+
+    a8(('equals',), True, maxlen_e=2, alphabet_e='a\n')
+    a8(('matches', True, 'E'), True, minlen_e=1)
+    a8(('matches', False, 'E'), True, minlen_e=1)
+    a8(('any', ('contents', ('matches', True, 'E'))), True, minlen_e=1)
+    a8(('every', ('and', ('U',), ('linenum', '<='))), True)
+    a8(('on', ('replace', False, None, 'a', 'E'), ('numlines', '==')), True, alphabet_e='b\n')
+    a8(('replace', False, None, 'E', 'X'), False, minlen_e=1)
+    a8(('replace', True, None, 'a', 'E'), False, alphabet_e='b\n')
+    a8(('grep', 'E'), False, minlen_e=1)
+    a8(('filter', ('contents', ('equals',))), False)
+    a8(('seq', ('strip',), ('grep', 'a')), False)
+    a8(('matches', True, 'E'), True, minlen_e=1, name='seeded-oracle-error', expect=ob.REFUTE, oracle_bug=True)
 
     # ---- K7
     def a7(tree, maxlen=None, timeout=300, **kw):
